@@ -1923,6 +1923,8 @@ class Engine:
         if defining_cls is None:
             defining_cls = cl.cls
         qn = cl.qualname()
+        if getattr(cl.fdef, "_qvc_rebound", None):
+            raise Unsupported("%s: %s - the body of the def is not what runs" % (qn, cl.fdef._qvc_rebound))
         locals_ = self.bind_args(cl.fdef, args, kwargs, cl)
         if self_obj is None and cl.cls is not None and isinstance(locals_.get("self"), PObj):
             self_obj = locals_["self"]
